@@ -156,6 +156,8 @@ def real_oneof(fd):
 
 def check_descriptor(full, idesc, gdesc, G, fail, ok):
     """Field-by-field comparison of the input descriptor with the emitted class's descriptor."""
+    if gdesc.full_name != idesc.full_name:
+        fail(full, 'message-full-name', f'the emitted class is registered as {gdesc.full_name}, the input declares {idesc.full_name}')
     inum = {fd.number: fd for fd in idesc.fields}
     gnum = {fd.number: fd for fd in gdesc.fields}
     if set(inum) != set(gnum):
